@@ -76,6 +76,9 @@ func (sh *SearchHistory) Load() error {
 	}
 
 	err = json.Unmarshal(data, sh)
+	if sh.MaxSize <= 0 {
+		sh.MaxSize = 100 // Ignore a nonsensical max_size from the file
+	}
 	if err != nil {
 		return fmt.Errorf("failed to parse history file: %w", err)
 	}
